@@ -11,6 +11,11 @@ MAX_ANGLE = np.pi / 2 - MIN_ANGLE
 __all__ = ["solve_box_like", "solve_r123", "solve_r124", "solve_r1234"]
 
 
+def _check_flank_arguments(flank_angle, flank_width, flank_height, flank_length):
+    if sum(v is not None for v in (flank_angle, flank_width, flank_height, flank_length)) > 1:
+        raise TypeError("Give at most one of flank_angle, flank_width, flank_height and flank_length.")
+
+
 def solve_r124(
     r1: float,
     r2: Optional[float],
@@ -24,6 +29,8 @@ def solve_r124(
     r4: float = 0,
     indent: float = 0,
 ):
+    _check_flank_arguments(flank_angle, flank_width, flank_height, flank_length)
+
     def l23(_alpha):
         return r1 * np.tan((_alpha + pad_angle) / 2)
 
@@ -150,6 +157,8 @@ def solve_r123(
     flank_height: Optional[float] = None,
     flank_length: Optional[float] = None,
 ):
+    _check_flank_arguments(flank_angle, flank_width, flank_height, flank_length)
+
     def l23(_alpha):
         return r1 * np.tan((_alpha + pad_angle) / 2)
 
@@ -269,6 +278,8 @@ def solve_r1234(
     flank_height: Optional[float] = None,
     flank_length: Optional[float] = None,
 ):
+    _check_flank_arguments(flank_angle, flank_width, flank_height, flank_length)
+
     def l23(_alpha):
         return r1 * np.tan((_alpha + pad_angle) / 2)
 
